@@ -13,7 +13,7 @@ def build(u):
     u.preamble('common.rs')
     u.preamble('bytes.rs')
     u.preamble('rbytes.rs')
-    add_classread(u, ['C01', 'C17'], with_pos=False)
+    add_classread(u, [], with_pos=False)  # the trait is verified (and counted) in unit rskip
     u.item('duke/src/tree/method/code.rs', 'struct', 'LvIndex', derives=['Copy', 'Clone', 'PartialEq', 'Eq'])
     u.open_block('pub trait CodeReadHelper: ClassRead {')
     u.fn(R, 'CodeReadHelper::read_u8_as_local_variable', container=TR, ret='res',
